@@ -1,7 +1,7 @@
 """C12 - identifier accessors return the written name, qualifier and alias."""
 import random
 
-from .. import sqlprog, accrec, tracecheck
+from .. import sqlprog, accrec, tracecheck, accrun
 from ..core import cps, uncps
 
 LEVEL = 'model_checking'
@@ -44,6 +44,9 @@ def run(ctx, modes=('ws', 'blank', 'ws')):
             meta.append(sp.text)
             ctx.evals()
             me.count_nontrivial(ctx, tr, sp)
+    if PID == 'C12':
+        # design-level run of the accessor model + its binding to the real classes
+        accrun.run(ctx, quick)
     xt, xm = me.extra_traces(ctx, rng, quick, len(traces))
     traces += xt
     meta += xm
